@@ -5,6 +5,27 @@ from harness import core, msggen, drvgen, drvcmp
 from harness.props import c10 as numref
 
 
+def expected_flags(defn, ops):
+    """which properties and elements a device exposes, from its declarations and ITS OWN history alone:
+    {property: (exposed, [element enabled...])}"""
+    groups = drvgen.effective_groups(defn)
+    gflag = {g["key"]: bool(g["enabled"]) for g in groups}
+    vflag, eflag, gof = {}, {}, {}
+    for g in groups:
+        for v in g["vectors"]:
+            vflag[v["name"]] = bool(v["enabled"])
+            eflag[v["name"]] = [bool(e["enabled"]) for e in v["elements"]]
+            gof[v["name"]] = g["key"]
+    for op in ops:
+        if op[0] == "envec":
+            vflag[op[1]] = bool(op[2])
+        elif op[0] == "engrp":
+            gflag[op[1]] = bool(op[2])
+        elif op[0] == "enelem":
+            eflag[op[1]][op[2]] = bool(op[3])
+    return {vn: (vflag[vn] and gflag[gof[vn]], eflag[vn]) for vn in vflag}
+
+
 def expected_defs(before, name):
     """what the property demands of one addressed device, from its public state just before the request"""
     out = []
@@ -154,6 +175,15 @@ class C07(core.Prop):
             if v["attrs"].get("device") not in names:
                 return "foreign-device: a reply names device %r" % v["attrs"].get("device")
         for dd, io in zip(c["devices"], obs["devices"]):
+            flags = expected_flags(dd["defn"], dd["ops"])
+            for v in io["before"]:
+                exposed, elems = flags[v["name"]]
+                if bool(v["enabled"]) != exposed:
+                    return "flags: property %s of %s is %s, its declarations and its own history make it %s" % (
+                        v["name"], dd["defn"]["name"], "exposed" if v["enabled"] else "hidden", "exposed" if exposed else "hidden")
+                if [bool(e["enabled"]) for e in v["elements"]] != elems:
+                    return "flags: elements of %s.%s enabled %s, its declarations and its own history give %s" % (
+                        dd["defn"]["name"], v["name"], [bool(e["enabled"]) for e in v["elements"]], elems)
             mine = [v for v in resp if v["attrs"].get("device") == dd["defn"]["name"]]
             defs = [v for v in mine if v["kind"].startswith("def")]
             if not self.addressed(c, dd):
